@@ -16,6 +16,26 @@ def explicit_casts(x, out, db=None, depth=0):
         if x.get("k") == "cast" and x.get("sk") in ("CXXReinterpretCastExpr", "CXXConstCastExpr", "CXXStaticCastExpr", "CStyleCastExpr", "CXXFunctionalCastExpr", "CXXDynamicCastExpr") and \
                 (x.get("t") or {}).get("k") != "rec":   # `Tag{}` / `Class(x)` constructs an object, it is not a conversion of the value
             out.append(x)
+        if db is not None and depth < 2 and x.get("k") == "call" and ((x.get("fn") or {}).get("n") or "").endswith("::operator()") and x.get("args"):
+            # a call through a lambda held in a constexpr variable (template) of rlbox::detail: its body
+            o_ = x["args"][0]
+            while isinstance(o_, dict) and o_.get("k") in ("icast", "cast", "paren") and "e" in o_:
+                o_ = o_["e"]
+            if isinstance(o_, dict) and o_.get("k") == "ref" and o_.get("dk") == "global":
+                if not hasattr(db, "_c20_global_lambdas"):
+                    db._c20_global_lambdas = {}
+                    for sv in db.statics:
+                        ini = sv.get("init")
+                        while isinstance(ini, dict) and ini.get("k") in ("icast", "cast", "paren", "mtemp", "bindtemp", "exprwc", "construct") and "e" in ini:
+                            ini = ini["e"]
+                        if isinstance(ini, dict) and ini.get("k") == "lambda":
+                            db._c20_global_lambdas[sv.get("d")] = ini
+                lam = db._c20_global_lambdas.get(o_.get("d"))
+                if lam is not None:
+                    spec = next((sp for sp in lam.get("specs", []) if sp.get("id") == (x.get("fn") or {}).get("id")), None)
+                    body = (spec or lam).get("body")
+                    if body is not None:
+                        explicit_casts(body, out, db, depth + 1)
         if db is not None and depth < 2 and x.get("k") == "call" and ((x.get("fn") or {}).get("n") or "").startswith("rlbox::detail::"):
             g = db.fn_by_id.get((x.get("fn") or {}).get("id"))
             if g is not None and "body" in g and not g.get("dep") and not g["n"].endswith(("::unwrap_value", "::dynamic_check")):
